@@ -253,11 +253,12 @@ def ob_se_mode(tomo, sysname, m, flag, kind, mode):
     def run(I):
         qt, tmpl, sel, sched = build_qt(tomo, sysname, m, flag)
         x = vec_of(I, "x", nv)
-        data = [(n, q.copy()) for q in qs]
+        ns = [n + 25 * j for j in range(len(qs))]            # shot counts differ between schedules
+        data = [(nj, q.copy()) for nj, q in zip(ns, qs)]
         loss = make_loss(kind, qt, se_option(mode), data)
         A, b = qt.calc_matA(), qt.calc_vecB()
         unb = mode in ("inverse_unbiased_covariance", "unbiased_inverse_covariance")
-        Wref = [ref_cov_weights(q, n, unb) for q in qs]
+        Wref = [ref_cov_weights(q, nj, unb) for nj, q in zip(ns, qs)]
         return [Eq(f"value under mode {mode} == reference with the documented weights", loss.value(x), ref_se(A, b, x, data, Wref), 1e-5)]
     return FnOb(reals("x", nv, -3.0, 3.0), run, expect_nonlinear=True)
 
